@@ -173,6 +173,38 @@ fn main() {
             );
             std::process::exit(if acc.violation_count > 0 { 1 } else { 0 });
         }
+        "probe-chain" => {
+            // One string per process: a FLAT chain of n binary operators (no nesting at all in
+            // the text). Exits 0 if from_str returns; the process dies if the native stack is
+            // exhausted. `--shape` picks the operator pattern, `--stack-mb` the thread's stack.
+            use std::str::FromStr;
+            let n: usize = a["n"].parse().unwrap();
+            let shape = a.get("shape").cloned().unwrap_or("add".into());
+            let mb: usize = a.get("stack-mb").map(|s| s.parse().unwrap()).unwrap_or(8);
+            let run = a.contains_key("run");
+            let text = match shape.as_str() {
+                "add" => format!("A\n({}1)\n", "1+".repeat(n)),
+                "unary" => format!("A\n({}1)\n", "-".repeat(n)),
+                "let" => format!("A\nlet a = {}1;\n1\n", "1*".repeat(n)),
+                _ => format!("A\n({}1)\n", "1|".repeat(n)),
+            };
+            let h = std::thread::Builder::new()
+                .stack_size(mb << 20)
+                .spawn(move || match digital_test_runner::ParsedTestCase::from_str(&text) {
+                    Err(_) => "parse error".to_string(),
+                    Ok(p) => {
+                        if !run {
+                            return "parsed".to_string();
+                        }
+                        let tc = p.with_signals(vec![digital_test_runner::Signal::output("A", 64)]).unwrap();
+                        let n = tc.try_iter_static().map(|it| it.count()).unwrap_or(0);
+                        format!("parsed and iterated {n} rows")
+                    }
+                })
+                .unwrap();
+            let r = h.join();
+            println!("PROBE-CHAIN n={n} shape={shape} stack_mb={mb} returned={r:?}");
+        }
         "count-distinct" => {
             let mut set = std::collections::HashSet::new();
             for f in &argv[2..] {
